@@ -1,3 +1,4 @@
+\* sensitivity: the plausible bug Dev = {OriginsLastOnly} MUST violate an invariant
 CONSTANTS
   Pats = {"/a"}
   HKinds = {"plain", "ownO", "ownM", "ownH", "ownAll", "cred", "dupO"}
